@@ -14,6 +14,8 @@ var fmtLines = []string{
 	"##!=>", "  ##!=< n", "[A-Z]x", raHeader1, raHeader2,
 	// indentation made of other white space than blanks and TABs belongs to the line
 	"\f##!> assemble", "\u00a0##!+ i", "\v##!>define  n  v", " \ffoo",
+	// an end marker closes its block whatever follows it on the line
+	"##!< end of block", "  ##!<1",
 }
 
 // troublemakers of C10: comments that look like directives, odd arguments, glued keywords, upper-case / unsupported flags
